@@ -97,6 +97,21 @@ CLAIMED["C03"] = dict(
     technique="Coq loop-invariant + refinement proof (abstract loc/alive machine <- concrete slot store) + differential correspondence",
     design="5/C03")
 
+CLAIMED["C05"] = dict(
+    text=("Model of ProteinScoringStrategy (razor filter with option-typed count tables, evidence collection over C20's index, "
+          "PEP list for the cutoff) and of the best-PEP / multiplied-PEP scores with -log10(x+eps) as an arbitrary function. "
+          "Theorems: with shared peptides discarded a peptide is evidence for group k iff it has proteins and all are indexed "
+          "to k; recorded proteins belong to that group; razor reduces to one of the peptide's own proteins; a peptide supports "
+          "at most one group either way; best-PEP score = f(min PEP) for antitone f and never decreases with more evidence; "
+          "multiplied-PEP summands are one per distinct peptide, its lowest PEP; groups without evidence are not ranked. "
+          "The razor arg-max order (count, best PEP, md5, name) is tied by correspondence only. Correspondence of "
+          "collect_peptide_scores_per_protein (discard/razor/with_shared, strict/suppressed, stale index), "
+          "BestPEPScore.calculate_score (numpy-tabulated f) and MultPEPScore (terms checked in Coq, float fold in Python)."),
+    note=COMMON_NOTE + "numpy log10 tabulated (same primitive); md5 uninterpreted/tabulated; MultPEP divisor search not modelled; "
+         "maximality of the razor choice not proved (correspondence only). Axioms: none.",
+    technique="Coq proof over fold-based collection + order lemmas; in-Coq differential correspondence with tabulated oracles",
+    design="5/C05")
+
 ALL = [f"C{i:02d}" for i in range(1, 21)]
 
 
